@@ -213,6 +213,9 @@ class Ctx:
         return d
 
     def cleanup(self):
+        if os.environ.get("VERIF_KEEP"):       # debugging aid: keep the scratch directory (shards, images)
+            print("scratch kept:", self.scratch)
+            return
         shutil.rmtree(self.scratch, ignore_errors=True)
 
 
